@@ -31,6 +31,15 @@ type Rule struct {
 	// RangeChan lists channel expressions (as printed, e.g. "m.flushChan") whose
 	// `for x := range ch` loops are rewritten into receive loops with a point.
 	RangeChan []string `json:"range_chan"`
+	// SortedRange lists map expressions (as printed) whose `for k, v := range m`
+	// loops are rewritten to iterate in sorted key order (keys must have a string
+	// underlying type; KeyType is the key's type name as written in that package).
+	SortedRange []SortedRange `json:"sorted_range"`
+}
+
+type SortedRange struct {
+	Expr    string `json:"expr"`
+	KeyType string `json:"key_type"`
 }
 
 type Spec struct {
@@ -116,6 +125,11 @@ func main() {
 		for name := range rule.Consts {
 			if !constsSeen[name] {
 				die("rule %d: constant %s not found", ri, name)
+			}
+		}
+		for _, sr := range rule.SortedRange {
+			if !sortedRangeSeen[sr.Expr] {
+				die("rule %d: range over map %s not found", ri, sr.Expr)
 			}
 		}
 		for _, c := range rule.RangeChan {
@@ -284,7 +298,7 @@ func rewriteFile(path string, rule Rule, constsSeen, yieldSeen map[string]bool) 
 	}
 
 	// 4. go / channel / select / close
-	if rule.Go || rule.Chan {
+	if rule.Go || rule.Chan || len(rule.SortedRange) > 0 {
 		ast.Inspect(file, func(n ast.Node) bool {
 			switch n := n.(type) {
 			case *ast.BlockStmt:
@@ -554,6 +568,12 @@ func (r *rw) stmts(list []ast.Stmt) []ast.Stmt {
 				continue
 			}
 		}
+		if rs, ok := s.(*ast.RangeStmt); ok {
+			if sr := r.sortedRangeFor(rs); sr != nil {
+				out = append(out, r.sortedRange(rs, sr))
+				continue
+			}
+		}
 		if rs, ok := s.(*ast.RangeStmt); ok && r.rule.Chan && r.isRangeChan(rs) {
 			out = append(out, r.rangeChan(rs))
 			continue
@@ -585,6 +605,44 @@ func (r *rw) isRangeChan(rs *ast.RangeStmt) bool {
 }
 
 var rangeChanSeen = map[string]bool{}
+var sortedRangeSeen = map[string]bool{}
+
+func (r *rw) sortedRangeFor(rs *ast.RangeStmt) *SortedRange {
+	x := exprString(rs.X)
+	for i := range r.rule.SortedRange {
+		if r.rule.SortedRange[i].Expr == x {
+			sortedRangeSeen[x] = true
+			return &r.rule.SortedRange[i]
+		}
+	}
+	return nil
+}
+
+// for k, v := range m { body } -> for _, vk := range vsched.SortedStringKeys(m) { k := K(vk); v := m[k]; body }
+func (r *rw) sortedRange(rs *ast.RangeStmt, sr *SortedRange) ast.Stmt {
+	if rs.Tok != token.DEFINE {
+		die("%s: unsupported sorted-range form", r.fset.Position(rs.Pos()))
+	}
+	r.tmp++
+	vk := fmt.Sprintf("vsortedKey%d", r.tmp)
+	kname := fmt.Sprintf("vsortedK%d", r.tmp)
+	if id, ok := rs.Key.(*ast.Ident); ok && id.Name != "_" {
+		kname = id.Name
+	}
+	var pre []ast.Stmt
+	pre = append(pre, &ast.AssignStmt{Lhs: []ast.Expr{ast.NewIdent(kname)}, Tok: token.DEFINE,
+		Rhs: []ast.Expr{&ast.CallExpr{Fun: ast.NewIdent(sr.KeyType), Args: []ast.Expr{ast.NewIdent(vk)}}}})
+	pre = append(pre, &ast.AssignStmt{Lhs: []ast.Expr{ast.NewIdent("_")}, Tok: token.ASSIGN, Rhs: []ast.Expr{ast.NewIdent(kname)}})
+	if rs.Value != nil {
+		if id, ok := rs.Value.(*ast.Ident); !ok || id.Name != "_" {
+			pre = append(pre, &ast.AssignStmt{Lhs: []ast.Expr{rs.Value}, Tok: token.DEFINE,
+				Rhs: []ast.Expr{&ast.IndexExpr{X: rs.X, Index: ast.NewIdent(kname)}}})
+		}
+	}
+	body := &ast.BlockStmt{List: append(pre, rs.Body.List...)}
+	return &ast.RangeStmt{Key: ast.NewIdent("_"), Value: ast.NewIdent(vk), Tok: token.DEFINE,
+		X: &ast.CallExpr{Fun: r.sched("SortedStringKeys"), Args: []ast.Expr{rs.X}}, Body: body}
+}
 
 // for k := range ch { body }  ->  for { RecvPoint(ch); k, ok := <-ch; if !ok { break }; body }
 func (r *rw) rangeChan(rs *ast.RangeStmt) ast.Stmt {
